@@ -97,6 +97,11 @@ func profileByName(name string) Profile {
 		p.Groups = []string{"g1", "g<2>"}
 		p.PGap, p.PMidInvoke, p.PDefer = 0.15, 0.3, 0.1
 		p.Invokes = [2]int{2, 6}
+	case "pcyclic":
+		// declared functions (distinct names) in cyclic shapes: the reported cycle paths can be read back
+		p.PFault, p.PDecorate, p.MinFns, p.MaxFns, p.MaxScopes = 0, 0.1, 4, 14, 4
+		p.PDefer, p.PExport, p.PMidInvoke, p.PVisualize = 0.35, 0.25, 0.3, 0
+		p.Invokes = [2]int{2, 6}
 	case "pcallbacks":
 		p.PCallback, p.PFault, p.InvokeFaults, p.PDecorate, p.MinFns, p.MaxFns = 0.7, 0.3, true, 0.3, 2, 9
 		p.Names = []string{"", "n1", "a<b"}
